@@ -63,7 +63,7 @@ func genNodeTok(r *rand.Rand, salt int) string {
 }
 
 func genC07(r *rand.Rand, tier string, idx int) []string {
-	g := &c06gen{r: r, node: idx%2 == 1}
+	g := &c06gen{r: r, node: idx%2 == 1, noRemove: true}
 	for i, n := 0, 1+r.Intn(2); i < n; i++ {
 		g.keys = append(g.keys, fmt.Sprintf("k%d", i+1))
 	}
